@@ -837,7 +837,10 @@ def wsDrop (w : World) (c : Nat) : World :=
   if ¬ cn.serverOpen then w else
   let w := w.setConn c fun x => { x with serverOpen := false }
   match trOfConn w c with
-  | some ti => trOnCloseBase w ti                            -- unexpected EOF: the connection's "close"
+  | some ti =>
+    -- WebSocket: unexpected EOF is a close error (1006): the connection's "close". WebTransport: the peer's streams
+    -- are reset (session gone), which the read loop reports as an error: the transport's "error"
+    if (w.tr ti).wt then trOnError w ti else trOnCloseBase w ti
   | none => w
 
 /-- the client closes the connection with a close frame carrying `code`: the server echoes the frame
